@@ -11,6 +11,7 @@
 (*   sub   the harness is about to subscribe                               *)
 (*   emit  the harness is about to emit notification number i (k, v)       *)
 (*   recv  the observer receives (k, v); for buffers i = length, v = first *)
+(*   cancel the subscription context is cancelled                          *)
 (*   unsubB / unsubE / end                                                 *)
 (***************************************************************************)
 EXTENDS Integers, Sequences, FiniteSets, TLC, Json
@@ -90,6 +91,8 @@ Step ==
      \* a time buffer that completes has handed over everything the source emitted
      /\ (op \in {"buffertime", "buffertimecount"} /\ Ev.k = "C") => consumed = NVals
      /\ UNCHANGED <<tsub, emits, srcTerm, unsE, inEmit>>
+  \* the subscription context is cancelled: no clause is relaxed by it (a delayed value still waits for its delay)
+  \/ /\ Is("cancel") /\ UNCHANGED <<tsub, emits, nrecv, lastIdx, srcTerm, outTerm, unsE, consumed, rus, inEmit, post>>
   \/ /\ Is("unsubB") /\ UNCHANGED <<tsub, emits, nrecv, lastIdx, srcTerm, outTerm, unsE, consumed, rus, inEmit, post>>
   \/ /\ Is("unsubE") /\ unsE' = TRUE /\ UNCHANGED <<tsub, emits, nrecv, lastIdx, srcTerm, outTerm, consumed, rus, inEmit, post>>
   \/ /\ Is("end")
